@@ -856,6 +856,8 @@ public:
       kv("clsq", qname(MD->getParent()), first);
       kvb("virtual", MD->isVirtual(), first);
       kvb("static", MD->isStatic(), first);
+      kv("access", MD->getAccess() == clang::AS_private ? "private" :
+                   (MD->getAccess() == clang::AS_protected ? "protected" : "public"), first);
       kvb("const", MD->isConst(), first);
       kvb("defaulted", MD->isDefaulted(), first);
       key("overrides", first);
